@@ -345,10 +345,12 @@ func (m *FloodSub) handleValidMessage(
 ) {
 	channelID := pktInner.GetChannel()
 	msgId := pkt.ComputeMessageID()
-	if _, ok := m.seenMessages.Get(msgId); ok {
+	// Add is atomic: it fails if the message id is already present. A separate
+	// Get + Set would let two copies arriving concurrently over different links
+	// both pass the check and be delivered twice.
+	if err := m.seenMessages.Add(msgId, pkt, 0); err != nil {
 		return
 	}
-	m.seenMessages.Set(msgId, pkt, 0)
 
 	pid, err := peer.IDB58Decode(pkt.GetFromPeerId())
 	if err != nil {
